@@ -46,8 +46,15 @@ func (o *Obligation) script(getValues []string) string {
 		body.WriteString(l)
 		body.WriteByte('\n')
 	}
+	for _, l := range o.Extra {
+		body.WriteString(l)
+		body.WriteByte('\n')
+	}
 	var sb strings.Builder
 	logic := "QF_AUFBV"
+	if os.Getenv("GOVC_LOGIC") != "" {
+		logic = os.Getenv("GOVC_LOGIC")
+	}
 	if strings.Contains(body.String(), "(forall ") || strings.Contains(body.String(), "(exists ") || strings.Contains(o.Goal, "(forall ") || strings.Contains(o.Goal, "(exists ") || strings.Contains(body.String(), "define-fun-rec") || strings.Contains(body.String(), "define-funs-rec") {
 		logic = "ALL"
 	}
